@@ -104,7 +104,7 @@ def control(proc, what, arg=None, who='ext'):
         elif what == 'kill':
             ret = proc.kill(arg)
         elif what == 'resume':
-            ret = proc.resume() if arg == NOVALUE or arg is None else proc.resume(arg)
+            ret = proc.resume() if arg == NOVALUE else proc.resume(arg)
         elif what == 'fail':
             exc = ProgError(arg)
             rec['_exc'] = exc
@@ -230,7 +230,7 @@ def _hook_point(proc, hook, pos):
     if f is not None and f['hook'] == hook and f['occ'] == cnt and f['pos'] == pos and f.get('pid', pid) == pid:
         if w.fault_fired is None:
             exc = InjectedFault(f'{hook}:{cnt}:{pos}')
-            w.fault_fired = ('hook', hook, cnt, pos, exc)
+            w.fault_fired = ('hook', hook, cnt, pos, exc, proc.has_terminated() if proc._state is not None else False)
             raise exc
 
 
@@ -303,6 +303,7 @@ class ProgBase(ContextMixin, Process):
 
             def callback(proc=self):
                 world.cur().tr(pid, {'k': 'cb', 'tag': tag, 'cur': Process.current() is proc, 'state': proc.state.value})
+                _hook_point(proc, 'cb:' + tag, 'pre')
                 if mode == 'raise':
                     exc = ProgError(tag)
                     world.cur().extra.setdefault('cb_excs', {}).setdefault(tag, []).append(exc)
@@ -350,8 +351,10 @@ class ProgBase(ContextMixin, Process):
         self._t('enter', idx, args=list(args), kwargs=dict(kwargs))
         outcome = 'raised'
         try:
+            _hook_point(self, 'step:' + step_name(idx), 'pre')
             for item in spec['body']:
                 self._item(idx, item)
+            _hook_point(self, 'step:' + step_name(idx), 'post')
             result = self._ret(idx, spec['ret'])
             outcome = 'returned'
             return result
@@ -366,6 +369,7 @@ class ProgBase(ContextMixin, Process):
         self._t('enter', idx, args=list(args), kwargs=dict(kwargs))
         outcome = 'raised'
         try:
+            _hook_point(self, 'step:' + step_name(idx), 'pre')
             for item in spec['body']:
                 if item[0] == 'yield':
                     await asyncio.sleep(0)
@@ -375,6 +379,7 @@ class ProgBase(ContextMixin, Process):
                     self._t('resumed', idx)
                 else:
                     self._item(idx, item)
+            _hook_point(self, 'step:' + step_name(idx), 'post')
             result = self._ret(idx, spec['ret'])
             outcome = 'returned'
             return result
